@@ -9,6 +9,7 @@ import json
 SCALAR_KEYS = ["A", "B", "C"]
 SECTION_KEYS = ["S.X", "S.Y", "S.Z", "S.T.U"]
 LIST_KEYS = ["L.0", "L.1"]
+ROW_KEYS = ["R.0.N", "R.1.N", "R.2.N"]  # through a LIST of sections (rows): three segments, the middle one an index
 DISPATCH_KEYS = ["M", "M2"]
 NEVER_KEYS = ["N1", "N2", "name", "args", "msg"]  # never mentioned by any generated program (three are named like LogRecord attributes)
 WHOLE_KEYS = ["S", "L", "S.T"]  # prefixes of other keys (read as a whole section / list)
@@ -372,7 +373,7 @@ class DictGen:
 
     MUTATIONS = [
         "repeat", "repeat", "change", "change", "change", "delete", "add", "never", "permute",
-        "sibling", "template", "fresh", "section_replace", "listref", "labrea_switch", "nsp", "nsp",
+        "sibling", "template", "fresh", "section_replace", "listref", "labrea_switch", "nsp", "nsp", "rows", "rows",
     ]
 
     def mutate(self, prev, hint_read=None, hint_unread=None):
@@ -448,6 +449,18 @@ class DictGen:
             k = r.choice([x for x in SCALAR_KEYS if not (self.cfg.get("tmpl_preset") and x in PRESET_TEMPLATE_TARGETS)] or ["A"])
             o[k] = "{L}"
             o["L"] = [r.choice(["x{C}", "{B}", "{M}", "p{S.X}q"]), r.choice([0, "a"])]
+        elif m == "rows" and self.cfg.get("row_keys"):
+            # a list of sections (0-3 rows); one row changed / dropped / appended
+            rows = copy.deepcopy(o.get("R")) if isinstance(o.get("R"), list) else []
+            x = r.random()
+            if x < 0.4 or not rows:
+                rows.append({"N": r.choice([0, 1, "a", "b"])})
+                rows = rows[:3]
+            elif x < 0.7:
+                rows[r.randrange(len(rows))] = {"N": r.choice([0, 1, 2, "a", "b"])}
+            else:
+                rows.pop()
+            o["R"] = rows
         elif m == "nsp" and self.cfg.get("namespace_keys"):
             # the section of the program's option namespace: declared members, a sub-section, and an entry nobody declared
             sec = dict(o.get("NSP") or {}) if isinstance(o.get("NSP"), dict) else {}
